@@ -198,7 +198,9 @@ func (b *unboundBuilder) Parse(s string) (*Literal, error) {
 	if raw[0] != '"' {
 		return nil, fmt.Errorf("literal.Parse: text encoded literals must start with \", missing in %s", raw)
 	}
-	idx := strings.Index(raw, "\"^^type:")
+	// Text values are printed verbatim, so they may contain the sequence "^^type:
+	// themselves; the type name never does. The last occurrence is the delimiter.
+	idx := strings.LastIndex(raw, "\"^^type:")
 	if idx < 0 {
 		return nil, fmt.Errorf("literal.Parse: text encoded literals must have a type; missing in %s", raw)
 	}
